@@ -628,6 +628,9 @@ NULL_TESTS = {"isnull", "isna", "is_null", "isnan"}
 POSITIONS = {"flatnonzero", "arg_true"}
 
 
+REDUCTIONS = {"sum", "nansum", "mean", "nanmean", "prod", "nanprod", "cumsum", "cumprod", "dot", "matmul", "max", "min", "amax", "amin", "std", "var", "average", "trace"}
+
+
 def r7(ctx):
     P = ctx.project
     regs = P.registrations(f"{NULLS}.find_nulls")
@@ -673,6 +676,16 @@ def r7(ctx):
                     cur = cur.value
                     continue
                 break
+            if found:
+                # the null test looks at the entries themselves: an arithmetic reduction underneath it (`isnan(sum(row))`) also reports
+                # rows without any null (inf + -inf) and is not "has a null entry"
+                tested = (cur.args[0] if cur.args else None) if not (isinstance(cur.func, ast.Attribute) and not dotted(cur.func)) else cur.func.value
+                if isinstance(cur.func, ast.Attribute) and not cur.args:
+                    tested = cur.func.value
+                agg = [norm(x)[:60] for x in (ast.walk(tested) if tested is not None else []) if isinstance(x, ast.Call)
+                       and (dotted(x.func) or getattr(x.func, "attr", "")).split(".")[-1] in REDUCTIONS]
+                ctx.check(not agg, "C06.R7", f"find_nulls[{ann}] tests the entries themselves for nullness", f.module.line(r), ctx.construct(f, text=f"entries {ann}"),
+                          f"the null test is applied to an aggregate `{agg[0] if agg else ''}`: a row whose entries cancel to NaN (inf − inf) would be reported although none is null")
             inst = f"find_nulls[{ann}] returns the positions of null entries"
             ctx.check(found and neg_total % 2 == 0, "C06.R7", inst, f.module.line(r), ctx.construct(f, r.value),
                       ("null test negated an odd number of times: the non-null rows are reported as null" if found else
